@@ -2,6 +2,7 @@
 import contextlib
 
 import torch
+import symtorch
 import xitorch
 from xitorch.optimize import rootfinder, equilibrium, minimize
 
@@ -20,6 +21,8 @@ META = {
                "(need convergence theory, not a bounded statement); more iterations; rounding",
     "assumptions": ["module-level name `float` of xitorch._impls.optimize.minimizer is bound to a pass-through so that float(x.item()) "
                     "keeps the symbolic value (gd/adam)",
+                    "module-level name `float` of the root-solver modules (rootsolver.py, equilibrium.py) is bound to a pass-through "
+                    "that keeps symbolic values symbolic, except at the eta_A site which keeps its NaN treatment",
                     "the value of `eta` in _nonlin_solver is irrelevant (AST guard: no Jacobian model reads `tol`)"],
 }
 
@@ -45,6 +48,46 @@ def sym_float(cx):
         del mz.float
 
 
+@contextlib.contextmanager
+def sym_float_root(cx):
+    """the root solvers' modules call float(...) on tensors; a symbolic value is kept symbolic (python's float() would force a
+    concrete number) EXCEPT at the one site whose value provably does not matter (eta_A, guarded by the AST check in
+    harness.base), which keeps its cheap NaN treatment so that it does not fork paths"""
+    if cx.mode == "real":
+        yield
+        return
+    import builtins
+    import sys as _sys
+    import linecache
+    import xitorch._impls.optimize.root.rootsolver as rs
+    import xitorch._impls.optimize.equilibrium as eqm
+    from symtorch import S, SymTensor, D
+
+    def _float(x):
+        fr = _sys._getframe(1)
+        if "eta_A = float(" in linecache.getline(fr.f_code.co_filename, fr.f_lineno):
+            if isinstance(x, SymTensor) or isinstance(x, S):
+                from harness import base as _base
+                if not _base._jacobian_solve_ignores_tol():
+                    raise symtorch.Inconclusive("eta_A is read by a Jacobian model: its value matters")
+                return builtins.float("nan")
+            return builtins.float(x)
+        if isinstance(x, SymTensor) and x.numel() == 1:
+            e = D(x).reshape(-1)[0]
+            if isinstance(e, S) and e.const() is None:
+                return e
+        if isinstance(x, S):
+            return x if x.const() is None else builtins.float(x.const())
+        return builtins.float(x)
+    rs.float = _float
+    eqm.float = _float
+    try:
+        yield
+    finally:
+        del rs.float
+        del eqm.float
+
+
 def _norm(t):
     return t.reshape(-1).norm()
 
@@ -65,7 +108,7 @@ def rf1d(cx, entry="rootfinder", method="linearmixing", maxiter=2, f_tol=1e-3, x
         fcn = lambda y: F(y).sum()
     else:
         fcn = lambda y: F(y)
-    with Recorder(xitorch.ConvergenceWarning) as rec, torch.no_grad():
+    with sym_float_root(cx), Recorder(xitorch.ConvergenceWarning) as rec, torch.no_grad():
         y = fn(fcn, y0, **opts)
     cx.claim_true("shape/dtype", tuple(y.shape) == tuple(y0.shape) and y.dtype == y0.dtype,
                   detail="%s %s" % (tuple(y.shape), y.dtype))
